@@ -398,6 +398,16 @@ func (m *Machine) runPath(e *Explorer, w workItem) {
 		} else {
 			m.recordViolation(&Violation{Kind: out.Kind, Label: out.Kind, Msg: out.Msg + " | stack: " + out.Stack})
 		}
+	case "unwind":
+		// An unwinding bound was exceeded (instruction budget, call depth, decisions): never
+		// success. The model is replayed natively: a run that crashes or does not terminate
+		// is a violation (non-termination / stack exhaustion); a run that ends normally
+		// means the bound is too small for this harness and the check is inconclusive.
+		if !m.ensureModelQuiet() {
+			out = &Outcome{Kind: "infeasible"}
+		} else {
+			m.recordViolation(&Violation{Kind: "unwind", Label: "unwind", Msg: out.Msg})
+		}
 	}
 	m.logging = false
 	m.rollback()
